@@ -107,8 +107,22 @@ class Chk:
     def fresh(self):
         return build(self.spec, self.dims, self.smode, self.dflt, self.fmts, self.mut)
 
+    # which configuration / tree features can matter for which symptom: a
+    # carry-over symptom only depends on the attribute that was not carried,
+    # the containment symptoms on the shape mode, the formats (they change what
+    # flatten and split iterate over) and the tree
+    CONFIG = {"shape": ("shape:",), "default": ("nonzero_default",), "format": ("has_U_format",),
+              "mutable": ("mutable_true",), "rank-ids": ()}
+
     def V(self, fam, sym, feats, exp, obs):
-        self.out.append((fam, sym, self.base | set(feats), exp, obs))
+        sel = self.CONFIG.get(sym)
+        if sel is None:
+            base = self.base
+        else:
+            base = {x for x in self.base if x.startswith(sel)} if sel else set()
+            if "content_empty" in self.base:
+                base.add("content_empty")
+        self.out.append((fam, sym, base | set(feats), exp, obs))
 
     def call(self, fam, fn):
         try:
@@ -194,7 +208,7 @@ class Chk:
             if lvl >= len(shape):
                 continue
             s = shape[lvl]
-            fl = feats | {"level=%d" % lvl}
+            fl = set(feats)
             rng = f.getActive()
             for c in f.coords:
                 inside = R.inside_shape(c, s) if strict else R.inside_shape_lex(c, s)
@@ -240,7 +254,7 @@ class Chk:
 def g_swizzle(k):
     D = k.depth
     for perm in itertools.permutations(range(D)):
-        feats = {"perm:" + "".join(map(str, perm)), "identity" if perm == tuple(range(D)) else "proper_permutation"}
+        feats = {"identity" if perm == tuple(range(D)) else "proper_permutation"}
         exp = R.exp_perm(k.ids, k.shape, k.fm, perm)
         r = k.call("swizzleRanks", lambda: k.fresh().swizzleRanks(list(exp[0])))
         if r is not None:
@@ -249,7 +263,7 @@ def g_swizzle(k):
         exp = R.exp_swap(k.ids, k.shape, k.fm, d)
         r = k.call("swapRanks", lambda: k.fresh().swapRanks(depth=d))
         if r is not None:
-            k.check("swapRanks", {"d=%d" % d}, r, exp)
+            k.check("swapRanks", set(), r, exp)
 
 
 def g_flatten(k):
@@ -261,7 +275,7 @@ def g_flatten(k):
             if style in ("absolute", "relative") and \
                     R9.rank_collides(R9.stored_prefixes(k.spec, D, d + l + 1), d, l, style, dims):
                 continue
-            feats = {"d=%d" % d, "levels=%d" % l, "style:" + style}
+            feats = {"levels=1" if l == 1 else "levels>1", "style:" + style}
             exp = R.exp_flatten(k.ids, k.shape, k.fm, d, l, style)
             r = k.call("flattenRanks", lambda: k.fresh().flattenRanks(depth=d, levels=l, coord_style=style))
             if r is None:
@@ -279,7 +293,7 @@ def g_merge(k):
     D, dims = k.depth, k.dims
     for d, l in R9.legal_flatten(D):
         for style in ("absolute", "relative"):
-            feats = {"d=%d" % d, "levels=%d" % l, "style:" + style}
+            feats = {"levels=1" if l == 1 else "levels>1", "style:" + style}
             if k.est(d + l) > k.est(d):
                 feats.add("lower_extent_exceeds_upper")
             exp = R.exp_flatten(k.ids, k.shape, k.fm, d, l, style)
@@ -305,7 +319,9 @@ def g_split(k):
                 for how in ("depth", "rankid"):
                     if how == "rankid" and (rel or args[0] in (2, [0, 2], [2, 1])):
                         continue        # addressing by name: one parameter choice per kind
-                    feats = {"d=%d" % d, "arg=%s" % (args[0],), "by:" + how}
+                    feats = set()
+                    if how == "rankid":
+                        feats.add("by_rankid")
                     if rel:
                         feats.add("relativeCoords")
                     kw = {"depth": d} if how == "depth" else {"rankid": k.ids[d]}
@@ -318,7 +334,7 @@ def g_split(k):
     for name, fn in (("truediv", lambda t: t / 2), ("floordiv", lambda t: t // 2)):
         r = k.call(name, lambda: fn(k.fresh()))
         if r is not None:
-            k.check(name, {"d=0"}, r, exp)
+            k.check(name, set(), r, exp)
 
 
 def g_update(k):
@@ -328,10 +344,10 @@ def g_update(k):
         n = k.est(d)      # reverse inside the extent the operand reports
         r = k.call("updateCoords", lambda: k.fresh().updateCoords(lambda i, c, p: n - 1 - c, depth=d))
         if r is not None:
-            k.check("updateCoords", {"d=%d" % d}, r, exp)
+            k.check("updateCoords", set(), r, exp)
     r = k.call("updatePayloads", lambda: k.fresh().updatePayloads(lambda i, c, p: p, depth=D - 1))
     if r is not None:
-        k.check("updatePayloads", {"d=%d" % (D - 1)}, r, exp)
+        k.check("updatePayloads", set(), r, exp)
     # the constructor result itself
     k.check("fromFiber", set(), k.fresh(), exp)
 
